@@ -1513,3 +1513,60 @@ Proof.
     apply String.eqb_eq in E. subst k.
     destruct Hi as [<-|[<-|[]]]; eexists; (split; [vm_compute; reflexivity|vm_compute; discriminate]).
 Qed.
+
+(* ---------- read-outs concurrent with the recording ----------------------------------------- *)
+(* Stats.Update and Stats.Collect (hence every read-out) hold the Stats mutex for
+   their whole body, so an execution with reader goroutines is some interleaving,
+   operation by operation, of the recording thread's operations with the readers'
+   read-outs. *)
+
+Inductive interleave2 : list op -> list op -> list op -> Prop :=
+| il2_nil : interleave2 [] [] []
+| il2_l : forall x a b m, interleave2 a b m -> interleave2 (x :: a) b (x :: m)
+| il2_r : forall y a b m, interleave2 a b m -> interleave2 a (y :: b) (y :: m).
+
+Lemma strip_interleave ups ros merged : interleave2 ups ros merged ->
+  (forall o, In o ups -> is_readout o = false) -> (forall o, In o ros -> is_readout o = true) ->
+  strip_readouts merged = ups.
+Proof.
+  induction 1 as [|x a b m _ IH|y a b m _ IH]; intros Hu Hr; [reflexivity| |].
+  - cbn [strip_readouts filter]. rewrite (Hu x (or_introl eq_refl)). cbn [negb]. f_equal.
+    apply IH; [intros o Ho; apply Hu; now right|exact Hr].
+  - cbn [strip_readouts filter]. rewrite (Hr y (or_introl eq_refl)). cbn [negb].
+    apply IH; [exact Hu|intros o Ho; apply Hr; now right].
+Qed.
+
+(* read-outs never change WHAT IS RECORDED: after any history every result set
+   holds, for every measure, the same values as after the history without its
+   read-outs *)
+Theorem readouts_keep_recorded : forall st ops i k,
+  store_at (fst (mrun all_fixed (init_state st) ops)) i k =
+  store_at (fst (mrun all_fixed (init_state st) (strip_readouts ops))) i k.
+Proof.
+  intros st ops i k. apply st_equiv_store_at.
+  apply (run_strip ops _ _ (safe_init st) (safe_init st) (st_equiv_refl _)).
+Qed.
+
+(* HEADLINE: after any prefix, let the recording operations [ups] run
+   concurrently with any read-outs [ros] of any reader threads (any interleaving
+   [merged]); whatever is read or written afterwards is what it would be had no
+   reader run: nothing recorded is lost, nothing is counted twice. *)
+Theorem concurrent_readers_irrelevant : forall st pre ups ros merged fin,
+  interleave2 ups ros merged ->
+  (forall o, In o ups -> is_readout o = false) -> (forall o, In o ros -> is_readout o = true) ->
+  final_out all_fixed st (pre ++ merged) fin = final_out all_fixed st (pre ++ ups) fin.
+Proof.
+  intros st pre ups ros merged fin Hi Hu Hr.
+  rewrite (readouts_irrelevant st (pre ++ merged) fin), (readouts_irrelevant st (pre ++ ups) fin).
+  unfold strip_readouts. rewrite !filter_app. fold (strip_readouts merged). fold (strip_readouts ups).
+  rewrite (strip_interleave _ _ _ Hi Hu Hr).
+  assert (E : strip_readouts ups = ups).
+  { clear -Hu. induction ups as [|o l IH]; [reflexivity|]. cbn [strip_readouts filter].
+    rewrite (Hu o (or_introl eq_refl)). cbn [negb]. f_equal. apply IH. intros o' Ho'. apply Hu. now right. }
+  rewrite E. reflexivity.
+Qed.
+
+Example concurrent_readers_example :
+  interleave2 [OMeasure "a" 1%Q 0; OMeasure "a" 2%Q 0] [OString 0; OCollect 0; OValues 0]
+              [OString 0; OMeasure "a" 1%Q 0; OCollect 0; OValues 0; OMeasure "a" 2%Q 0].
+Proof. repeat constructor. Qed.
